@@ -23,8 +23,10 @@ func vh_ALC() {
 	}
 	e.EntryType = ConfigurationEntry
 	e.Data, _ = n.tr.EncodeConfiguration(next)
-	// the committed configuration is the one in force or older (N6)
-	vAssume(r.committedConfiguration.Index <= r.configuration.Index)
+	// the committed configuration is the one in force or an older one (N6)
+	ci := vNondetU64("a.committedCfgIndex")
+	vAssume(ci <= r.configuration.Index)
+	r.committedConfiguration.Index = ci
 	own := r.state == Leader && vNondetBool("ownChange")
 	var ch chan Result[Configuration]
 	if own {
@@ -38,9 +40,18 @@ func vh_ALC() {
 		chRep = make(chan Result[OperationResponse], 1)
 		r.operationManager.pendingReplicated[e.Index+1] = chRep
 	}
+	// configurations are identified by their log index: the one in force is the entry's own if it has the same index
+	// (a follower, or a leader that added a server, has had it in force since it appended the entry)
+	vAssume(vImplies(r.configuration.Index == next.Index, vCfgSame(r.configuration, next, ids)))
+	// a leader is a member of the configuration it has in force
+	if r.state == Leader {
+		_, selfIn := r.configuration.Members["n1"]
+		vAssume(selfIn)
+	}
 	pre := vSnapshotNode(n)
 	preCommittedIdx := r.committedConfiguration.Index
 	preCfg := r.configuration
+	preCfgIdx := r.configuration.Index
 	_, selfStays := next.Members["n1"]
 	ctl := &vLoopCtl{}
 	var post vSnap
@@ -49,6 +60,7 @@ func vh_ALC() {
 	r.wg.Add(1)
 	r.applyLoop()
 	vDrain()
+	vCheckInv(n, true, true)
 	vAssert(ctl.waits == 2, "C18.apply-loop-returns-to-wait")
 	vAssert(post.applied == pre.commit, "C01|C15.configuration-entry-applied")
 	vAssert(len(n.fsm.applied) == 0, "C01.configuration-entry-not-handed-to-state-machine")
@@ -59,7 +71,15 @@ func vh_ALC() {
 		return
 	}
 	vCover("configuration-applied")
-	vAssert(vAnd(r.configuration.Index == next.Index, r.committedConfiguration.Index == next.Index), "C09.applied-configuration-in-force-and-committed")
+	vAssert(r.committedConfiguration.Index == next.Index, "C09.applied-configuration-is-the-committed-one")
+	if next.Index < preCfgIdx {
+		// a more recent configuration is already in force (it is from the moment it is in the log): applying an
+		// older one must not put the node back
+		vCover("newer-configuration-stays-in-force")
+		vAssert(r.configuration == preCfg, "C01|C02|C09.applying-a-configuration-keeps-a-more-recent-one-in-force")
+		return
+	}
+	vAssert(r.configuration.Index == next.Index, "C09.applied-configuration-in-force-and-committed")
 	for _, id := range ids {
 		m0, v0 := vCfgHas(next, id)
 		m1, v1 := vCfgHas(r.configuration, id)
